@@ -35,7 +35,8 @@ FINDING = "C21-orchestrator-start-foreign-thread"
 RULE = ("real thread-mode runs (modes: plain; poke = a foreign thread calls end_metrics / current_solution / "
         "current_global_cost / replication_metrics / stop_agents(grace 0..0.2 s) / wait_ready during the run; "
         "timeout = run(timeout=0.6) ended by the library's Timer thread; half of the mgm/dsa runs are "
-        "resilient = replication dist_ucs_hostingcosts, level 1..2): 3-5 variables, algorithm dpop / mgm(stop_cycle 3-8) / dsa(stop_cycle), "
+        "resilient = replication dist_ucs_hostingcosts, level 1..2; 2/3 of the other runs get a scenario "
+        "removing an idle agent, as first event or after a delay event): 3-5 variables, algorithm dpop / mgm(stop_cycle 3-8) / dsa(stop_cycle), "
         "distribution oneagent/adhoc/random, collect mode value_change/cycle_change/period(0.01-0.05s), "
         "switch interval 1e-6..5e-3 s, random sleeps <= 0.5 ms in 5% of the callbacks; "
         "non-trivial = at least 20 recorded callbacks on at least 3 threads; distinct = distinct case JSON")
@@ -82,8 +83,12 @@ def gen(rng, n, tier):
         # resilient: agents host a replication computation, which registers discovery callbacks on
         # agent events (fired when agents come and go); DPOP has no footprint, so mgm / dsa only
         resilient = algo in ("mgm", "dsa") and rng.random() < 0.5
+        # scenario (as `pydcop run --scenario`): one extra, idle agent is removed by a scenario
+        # event, either as the first event (injected by the thread that calls run()) or after a
+        # delay event (injected by a threading.Timer thread); all agents get pause + resume
+        scenario = None if resilient else rng.choice([None, "delay_first", "event_first"])
         cases.append(dict(kind="real", mode=mode, grace=rng.choice([0.0, 0.05, 0.2]),
-                          resilient=resilient, k=rng.randint(1, 2),
+                          resilient=resilient, k=rng.randint(1, 2), scenario=scenario,
                           spec=spec, algo=algo, params=params, dist=dist,
                           n_agents=nv + rng.randint(0, 1) if dist == "oneagent" else rng.randint(2, nv),
                           collect=collect, period=rng.choice([0.01, 0.02, 0.05]),
@@ -128,9 +133,24 @@ def _real(case):
     def jitter():
         if jr.random() < case["jitter"]:
             time.sleep(jr.random() * 0.0005)
-    dcop = rt.build_dcop(case["spec"], case["n_agents"])
+    scen = case.get("scenario")
+    dcop = rt.build_dcop(case["spec"], case["n_agents"] + (1 if scen else 0))
     algo, cg, dist = rt.build_runtime(dcop, case["algo"], case["dist"], algo_params=case["params"],
                                       rng_seed=case["seed"])
+    scenario = None
+    if scen:
+        from pydcop.dcop.scenario import Scenario, DcopEvent, EventAction
+        from pydcop.distribution.objects import Distribution
+        idle = rt.aname(case["n_agents"])          # the extra agent hosts nothing
+        mapping = {a: list(cs) for a, cs in dist.mapping().items()}
+        moved = mapping.pop(idle, [])
+        mapping[sorted(mapping)[0]].extend(moved)
+        mapping[idle] = []
+        dist = Distribution(mapping)
+        removal = DcopEvent("e1", actions=[EventAction("remove_agent", agent=idle)])
+        events = ([DcopEvent("d1", delay=0.2), removal] if scen == "delay_first"
+                  else [removal, DcopEvent("d1", delay=0.2)])
+        scenario = Scenario(events)
     tt = rt.ThreadTrace(jitter if case["jitter"] else None).install()
     from pydcop.infrastructure.run import run_local_thread_dcop
     t0 = time.time()
@@ -160,7 +180,7 @@ def _real(case):
             res["replication_ready"] = orch.mgt.ready_to_run.wait(30)   # bounded, unlike wait_ready()
         if mode == "poke":
             threading.Thread(target=poker, name="c21-user", daemon=True).start()
-        orch.run(timeout=0.6 if mode == "timeout" else RUN_TIMEOUT)
+        orch.run(scenario, timeout=0.6 if mode == "timeout" else RUN_TIMEOUT)
         res["status"] = orch.status
         res["elapsed"] = time.time() - t0
     finally:
@@ -301,8 +321,9 @@ def nontrivial(case, o):
 def histogram(cases, obs):
     h = {}
     for c, o in zip(cases, obs):
-        k = "%s/%s/%s/%s%s" % (c["algo"], c["dist"], c["collect"], c.get("mode", "plain"),
-                               "/resilient" if c.get("resilient") else "")
+        k = "%s/%s/%s/%s%s%s" % (c["algo"], c["dist"], c["collect"], c.get("mode", "plain"),
+                                 "/resilient" if c.get("resilient") else "",
+                                 "/scenario-" + c["scenario"] if c.get("scenario") else "")
         h[k] = h.get(k, 0) + 1
         if o.get("first_error"):
             h["retried/" + o["first_error"]] = h.get("retried/" + o["first_error"], 0) + 1
